@@ -633,6 +633,8 @@ pub fn run(run: &Run) {
         SAct::Publish { sid: 1, key: "k1".into(), mode: "live".into() }, SAct::Accept { id: 1 },
         SAct::Play { sid: 2, key: "k2".into() }, SAct::Accept { id: 2 },
     ]);
+    let mut after_delete = two_streams.clone();
+    after_delete.push(SAct::DeleteStream { sid: 1 });
     let plans: Vec<(&str, Vec<SAct>, usize, bool)> = if thorough {
         vec![
             ("from a fresh session", vec![], 10, false),
@@ -642,6 +644,7 @@ pub fn run(run: &Run) {
             ("from connected with two streams", two_streams.clone(), 7, true),
             ("from publishing on stream 1", publishing.clone(), 9, false),
             ("from publishing on 1 and playing on 2", playing_and_publishing.clone(), 7, true),
+            ("from two streams created and the first deleted", after_delete.clone(), 8, false),
         ]
     } else {
         vec![
@@ -649,10 +652,11 @@ pub fn run(run: &Run) {
             ("from connected with one stream", one_stream.clone(), 6, false),
             ("from publishing on stream 1", publishing.clone(), 6, false),
             ("from publishing on 1 and playing on 2", playing_and_publishing.clone(), 5, true),
+            ("from two streams created and the first deleted", after_delete.clone(), 4, false),
         ]
     };
     for (name, prefix, depth, extended) in plans {
-        let g = G { thorough, c: Counters::new(&NAMES), max_streams: if thorough { 3 } else { 2 }, max_outstanding: if thorough { 3 } else { 2 }, extended };
+        let g = G { thorough, c: Counters::new(&NAMES), max_streams: if name.contains("deleted") { 4 } else if thorough { 3 } else { 2 }, max_outstanding: if thorough { 3 } else { 2 }, extended };
         let init = match drive(&g, fresh_state(), &prefix) {
             Ok(s) => s,
             Err((sig, d)) => {
